@@ -57,9 +57,9 @@ Proof. intros; unfold try_undo; des_if; apply slog_set_status. Qed.
 (* the single status write abortTasks performs on a task *)
 Definition abort_write (s : state) (t : nat) : state :=
   match eff_status (get s t) with
-  | Do => set_status s t Hold
-  | Doing => set_status s t Abort
-  | Done => set_status s t Undo
+  | Do => set_status_quiet s t Hold
+  | Doing => set_status_quiet s t Abort
+  | Done => set_status_quiet s t Undo
   | _ => s
   end.
 
@@ -120,8 +120,14 @@ Section AbortPreserve.
   Qed.
 End AbortPreserve.
 
+Lemma slog_set_status_quiet : forall s t nw, slog (set_status_quiet s t nw) = slog s.
+Proof. intros; unfold set_status_quiet, with_tasks; des_if; reflexivity. Qed.
+
+Lemma slog_ready_detect : forall s, slog (ready_detect s) = slog s.
+Proof. intros; unfold ready_detect, with_cready, with_panicked; repeat des_if; reflexivity. Qed.
+
 Lemma slog_abort_write : forall s t, slog (abort_write s t) = slog s.
-Proof. intros; unfold abort_write; destruct (eff_status (get s t)); auto using slog_set_status. Qed.
+Proof. intros; unfold abort_write; destruct (eff_status (get s t)); auto using slog_set_status_quiet. Qed.
 
 Lemma slog_abort_lanes : forall d kill al seen s, slog (abort_lanes d kill al seen s) = slog s.
 Proof.
@@ -185,7 +191,7 @@ Proof.
   destruct (panicked s); [reflexivity|]. destruct (negb (memn t (running s))); [reflexivity|].
   destruct o.
   - destruct (st (remove_running s t) t); rewrite ?slog_set_status; reflexivity.
-  - rewrite slog_set_status. unfold abort_lanes_top; rewrite slog_abort_lanes; reflexivity.
+  - rewrite slog_set_status. unfold abort_lanes_top; rewrite slog_ready_detect, slog_abort_lanes; reflexivity.
   - repeat des_if; rewrite ?slog_try_undo; reflexivity.
   - repeat des_if; rewrite ?slog_try_undo, ?slog_set_to_wait; reflexivity.
 Qed.
@@ -195,7 +201,7 @@ Proof.
   intros s e H; destruct e; simpl.
   - apply log_ensure_pass; assumption.
   - rewrite slog_finish; assumption.
-  - des_if; [assumption|]. unfold abort_change; rewrite slog_abort_tasks; assumption.
+  - des_if; [assumption|]. unfold abort_change; rewrite slog_ready_detect, slog_abort_tasks; assumption.
   - assumption.
   - des_if; [assumption|]. unfold resolve_wait; des_if; rewrite ?slog_set_status; assumption.
 Qed.
